@@ -3,6 +3,7 @@
 import json, sys, os
 pid, wt = sys.argv[1], sys.argv[2]
 n = sys.argv[3] if len(sys.argv) > 3 else "3"
+start = int(sys.argv[4]) if len(sys.argv) > 4 else 1
 root = os.path.dirname(os.path.dirname(os.path.abspath(__file__)))
 for l in open(os.path.join(root, "properties.jsonl")):
     d = json.loads(l)
@@ -18,4 +19,4 @@ if mech:
 t = open(os.path.join(root, "lib", "seed_prompt.md")).read()
 stmt = d["statement"] + "\n> \n> Quantified " + d.get("quantifier", {}).get("text", "")
 print(t.replace("@WT@", wt).replace("@ID@", pid).replace("@TITLE@", d["title"]).replace("@STATEMENT@", stmt)
-       .replace("@ANCHORS@", atxt).replace("@N@", n))
+       .replace("@ANCHORS@", atxt).replace("@RANGE@", "%d..%d" % (start, start + int(n) - 1)).replace("@N@", n))
